@@ -367,6 +367,10 @@ func c14Packet(c *engine.Ctx, cs c14Case) {
 		ak := le.EapTypeData.(*eap.EapAkaPrime)
 		for _, a := range want.AKA {
 			got, gerr := ak.GetAttr(eap.EapAkaPrimeAttrType(a.T))
+			if gerr == nil && (got.GetAttrType().Value() != a.T || eap.EapAkaPrimeAttrType(a.T).Value() != a.T) {
+				c.Violate(fmt.Sprintf("getattr/wrong-attribute/at%d", a.T), fmt.Sprintf("%s: GetAttr(%d) returns an attribute of type %d", cs.Name, a.T, got.GetAttrType().Value()), cs)
+				return
+			}
 			if gerr != nil || !bytes.Equal(got.GetValue(), a.V) {
 				c.Violate(fmt.Sprintf("getvalue/built/at%d", a.T), fmt.Sprintf("%s: SetAttr(%d, %x) then GetValue gives %x (%v)", cs.Name, a.T, trunc(a.V, 24), trunc(got.GetValue(), 24), gerr), cs)
 				return
